@@ -146,7 +146,9 @@ def check_spec(ctx, case, gt, sp, generations=2):
         from .. import world
         loaded = ir_prev
         nodes_l = {n.uuid.hex: n for n in world.reachable(gt, loaded)}
-        sp3, edits = irbuild.mutate_live(rnd, gt, sp, nodes_l, {},
+        sp3, edits = irbuild.mutate_live(rnd, gt, sp, nodes_l,
+                                         irbuild.loaded_aux_values(
+                                             rnd, gt, loaded),
                                          rnd.randint(1, 4))
         if edits:
             for e in edits:
